@@ -164,6 +164,26 @@ def macro_get(P, b):
     return True, "", [c.loc for c in eqs]
 
 
+def no_truncating_adaptors_rule(chk, P, key):
+    def no_truncating_adaptors():
+        EARLY = ("map_while", "take_while", "take", "scan", "step_by", "nth", "last", "min", "max", "find", "position", "any", "all")
+        n = 0
+        for fb in P.find(trait=PROPS, method="for_each"):
+            if fb.is_closure:
+                continue
+            n += 1
+            for x in [fb] + P.closures_of(fb):
+                for c in x.calls(normal_only=True):
+                    if c.callee.get("name") in EARLY and "iter" in (c.callee.get("trait") or c.callee.get("path") or "").lower():
+                        return False, ("%s enumerates through Iterator::%s at %s, which can end the iteration before every property was visited "
+                                       "(e.g. at the first None of an optional capture): later properties would be found by get() but never "
+                                       "enumerated" % (fb.key, c.callee.get("name"), c.loc)), [], c.loc
+        if n < 20:
+            raise mir.AnchorMissing("Props::for_each impls (found %d)" % n)
+        return True, "", ["%d for_each impls" % n]
+    chk.ob(key, "no enumeration goes through an iterator adaptor that can stop early on its own (only the visitor's Break ends it)", no_truncating_adaptors)
+
+
 def run(chk):
     global _P
     P = mir.Program("K1")
@@ -351,23 +371,7 @@ def run(chk):
             return False, "enumeration continues into an inner collection but the lookup override never asks it", [], b.span
         return True, "", [fe.span, b.span]
 
-    def no_truncating_adaptors():
-        EARLY = ("map_while", "take_while", "take", "scan", "step_by", "nth", "last", "min", "max", "find", "position", "any", "all")
-        n = 0
-        for fb in P.find(trait=PROPS, method="for_each"):
-            if fb.is_closure:
-                continue
-            n += 1
-            for x in [fb] + P.closures_of(fb):
-                for c in x.calls(normal_only=True):
-                    if c.callee.get("name") in EARLY and "iter" in (c.callee.get("trait") or c.callee.get("path") or "").lower():
-                        return False, ("%s enumerates through Iterator::%s at %s, which can end the iteration before every property was visited "
-                                       "(e.g. at the first None of an optional capture): later properties would be found by get() but never "
-                                       "enumerated" % (fb.key, c.callee.get("name"), c.loc)), [], c.loc
-        if n < 20:
-            raise mir.AnchorMissing("Props::for_each impls (found %d)" % n)
-        return True, "", ["%d for_each impls" % n]
-    chk.ob("C02.R1:no-truncating-adaptors", "no enumeration goes through an iterator adaptor that can stop early on its own (only the visitor's Break ends it)", no_truncating_adaptors)
+    no_truncating_adaptors_rule(chk, P, "C02.R1:no-truncating-adaptors")
 
     for b in overrides["get"]:
         k = self_kind(b)
